@@ -220,46 +220,52 @@ example : ∀ h' c,
   have h1 : id ≠ 1 := by simp at hid; omega
   exact ⟨b, by rw [getB_set_ne _ h1, getB_set_ne _ h0]; exact hb, rfl, rfl⟩
 
-/-! ## history_safe: no sequence of operations touches freed memory or destroys a shared child twice -/
+/-! ## history_safe: no sequence of operations touches freed memory, leaks, or destroys a shared child twice -/
 
 /-- The full statement: for EVERY history of guarded statements from the initial state (any number of root
-variables), the reference-count invariant holds in every reached state (each handle points to a live block of its
-kind, each live block's count is exactly the number of handles to it, objects stay sorted, no block contains itself)
-and every statement is either executed or refused by a guard — it never reads or releases a released block,
-never indexes outside an element array, never finds a zero count. -/
+variables), the invariant holds in every reached state — each handle points to a live block of its kind, each live
+block's count is exactly the number of handles to it and is positive, objects stay sorted, and the handle graph is
+acyclic (a rank function decreases along every edge) — and every statement is either executed or refused by a
+guard: it never reads or releases a released block, never indexes outside an element array, never finds a zero
+count. -/
 def history_safe_full : Prop :=
   ∀ (n : Nat) (ops : List Op),
     Inv (run true (initState n) ops) [] ∧ ∀ r ∈ results true (initState n) ops, Safe r
 
-/-- **history_safe_partial** — the full statement for all histories in which `extend` is applied to root variables
-only (every other statement — typed and Var assignment incl. own elements/properties, auto-creating `operator[]`
-paths of any depth, append, resize, removeAt, remove, clear, clone, copy, drop, constructors — at any depth).
-What is missing for `history_safe_full`: `p.extend(q)` with a nested target `p`, whose loop needs an acyclicity
-invariant to show that the target Var outlives the releases the loop performs. -/
-theorem history_safe_partial (n : Nat) (ops : List Op) (hops : ∀ op ∈ ops, RootExtend op) :
-    Inv (run true (initState n) ops) [] ∧ ∀ r ∈ results true (initState n) ops, Safe r := by
-  obtain ⟨inv, _, hall⟩ := (Inv.init n).run ops (initState n) rfl hops
+/-- **history_safe** — proved in full: typed and Var assignment incl. own elements/properties, auto-creating
+`operator[]` paths, append, resize, removeAt, remove, clear, extend, clone, copy, drop, constructors, at any depth,
+in any order, with any sharing.  (All of it under the guard of the known finding: a statement that would grow a
+block whose rc > 1 is refused, as is one that would make a container contain itself.) -/
+theorem history_safe : history_safe_full := by
+  intro n ops
+  obtain ⟨inv, _, hall⟩ := (Inv.init n).run ops (initState n) rfl
   exact ⟨inv, hall⟩
 
-/-- in particular: no statement of such a history is a use after free, a double release (count 0) or an
+/-- in particular: no statement of any history is a use after free, a double release (count 0) or an
 out-of-range element access -/
-theorem history_never_touches_freed (n : Nat) (ops : List Op) (hops : ∀ op ∈ ops, RootExtend op) :
+theorem history_never_touches_freed (n : Nat) (ops : List Op) :
     ∀ r ∈ results true (initState n) ops, r ≠ .error .uaf ∧ r ≠ .error .oob ∧ r ≠ .error .rc := by
   intro r hr
-  have hs := (history_safe_partial n ops hops).2 r hr
+  have hs := (history_safe n ops).2 r hr
   cases r with
   | ok _ => refine ⟨?_, ?_, ?_⟩ <;> intro h <;> cases h
   | error e =>
     simp only [Safe, Refusal] at hs
     refine ⟨?_, ?_, ?_⟩ <;> intro h <;> cases h <;> simp at hs
 
-/-- in every state reached by such a history, a live block is never orphaned: some root variable or some live block
-holds a handle to it (so the only way a block could outlive all root variables is a cycle of handles, which the
-guards refuse to create) -/
-theorem no_orphan_block (n : Nat) (ops : List Op) (hops : ∀ op ∈ ops, RootExtend op) (id : Nat) (b : Block)
+/-- **no leak**: in every state reached by any history, if no root variable holds an array or object any more
+(all were dropped or overwritten by scalars), then no block is live — everything that was allocated has been
+released, exactly once (`history_never_touches_freed`) -/
+theorem no_leak (n : Nat) (ops : List Op)
+    (hroots : ∀ v ∈ (run true (initState n) ops).slots, handleOf v = none) (id : Nat) (b : Block) :
+    getB (run true (initState n) ops).heap id ≠ .ok b :=
+  (history_safe n ops).1.no_leak hroots id b
+
+/-- a live block is never orphaned: some root variable or some live block holds a handle to it -/
+theorem no_orphan_block (n : Nat) (ops : List Op) (id : Nat) (b : Block)
     (hb : getB (run true (initState n) ops).heap id = .ok b) :
     ∃ v, handleOf v = some id ∧ (v ∈ (run true (initState n) ops).slots ∨ v ∈ hvals (run true (initState n) ops).heap) := by
-  have inv := (history_safe_partial n ops hops).1
+  have inv := (history_safe n ops).1
   have hc := inv.wf.counted id b hb
   have hp := inv.wf.pos id b hb
   simp only [List.append_nil] at hc
@@ -270,11 +276,12 @@ theorem no_orphan_block (n : Nat) (ops : List Op) (hops : ∀ op ∈ ops, RootEx
     obtain ⟨v, hv, hid⟩ := (occ_pos_iff _ _).mp h2
     exact ⟨v, hid, Or.inr hv⟩
 
-/-- the hypotheses are satisfiable by a history that shares, auto-creates, self-assigns and releases -/
-example : ∀ r ∈ results true (initState 3)
-    [ .setLit ⟨0, [.idx 0, .idx 1]⟩ (.int 7), .copy 1 ⟨0, []⟩, .setV ⟨0, []⟩ ⟨0, [.idx 0]⟩,
-      .appLit ⟨1, []⟩ (.str [97]), .extend ⟨2, []⟩ ⟨1, []⟩, .drop 1 ], Safe r :=
-  (history_safe_partial 3 _ (by intro op hop; simp at hop; rcases hop with h | h | h | h | h | h <;> subst h <;> simp [RootExtend])).2
+/-- a history that shares, auto-creates, self-assigns, extends a nested object by its own property and drops every
+root: all blocks are released at the end -/
+example : ((run true (initState 3)
+    [ .setLit ⟨0, [.idx 0, .key [97], .key [98]]⟩ (.int 7), .copy 1 ⟨0, []⟩, .setV ⟨0, []⟩ ⟨0, [.idx 0]⟩,
+      .appLit ⟨1, []⟩ (.str [97]), .extend ⟨0, [.key [97]]⟩ ⟨0, [.key [97], .key [98]]⟩, .extend ⟨2, []⟩ ⟨0, []⟩,
+      .drop 1, .drop 0, .drop 2 ]).heap.all (· == none)) = true := by decide
 
 /-! ## the inherited known finding: growth of a shared container -/
 
